@@ -21,7 +21,8 @@ from common import g_bool, g_list, g_nat
 RULE = ("histories = sequences of 1..4 runs, each noisy or noise-free, on one shared StrongSimParams / AnalogSimParams / "
         "WeakSimParams object, serial or parallel; non-trivial = a noisy run follows a noise-free one or vice versa; "
         "distinct by (class, history, num_traj/shots)")
-TRUSTED = ["correspondence harness: counting stubs for digital_tjm / analog_tjm_1/2 / lindblad / mcwf in simulator's namespace",
+TRUSTED = ["translator harness/gen/translate_init.py (Observable.initialize -> Gen/InitGen.v), validated against the real method on every run",
+           "correspondence harness: counting stubs for digital_tjm / analog_tjm_1/2 / lindblad / mcwf in simulator's namespace",
            "modelled, not verified: independence of the OS entropy behind separate numpy default_rng() calls (also in forked workers)"]
 ASSUMES = ["the observable effect of a run = (trajectories executed, shots/counts returned, result values as a function of the "
            "per-trajectory values)"]
@@ -165,6 +166,47 @@ def model_exprs(kind, hist, n):
     return exprs
 
 
+def regenerate(ctx):
+    """coq/Gen/InitGen.v from the current source of Observable.initialize (fail closed)"""
+    from gen import translate_init
+
+    translate_init.regenerate()
+
+
+def init_rule_correspondence(ctx):
+    """validation of the translator: the real Observable.initialize on parameter objects of all three classes (fresh observables and
+    observables that carry the buffers of an earlier run) vs Gen/InitGen.init_shape_src"""
+    from mqt.yaqs.core.data_structures.simulation_parameters import AnalogSimParams, Observable, StrongSimParams, WeakSimParams
+
+    cases, exprs, impl = [], [], []
+    for k in range(ctx.scale(30, 300)):
+        n, mid, shots = int(ctx.rng.integers(1, 9)), int(ctx.rng.integers(0, 5)), int(ctx.rng.integers(1, 9))
+        flag = bool(ctx.rng.integers(0, 2))
+        steps = int(ctx.rng.integers(1, 7))
+        cls = ("KAnalog", "KWeak", "KStrong")[k % 3]
+        o = Observable("z", 0)
+        if k % 2:  # the observable served an earlier run with other sizes
+            o.initialize(StrongSimParams([o], num_traj=n + 3, sample_layers=flag, num_mid_measurements=mid, show_progress=False))
+        if cls == "KAnalog":
+            p = AnalogSimParams([o], elapsed_time=0.1 * steps, dt=0.1, num_traj=n, sample_timesteps=flag, show_progress=False)
+            ntimes = len(p.times)
+        elif cls == "KWeak":
+            p, ntimes = WeakSimParams(shots=shots, show_progress=False), 0
+        else:
+            p, ntimes = StrongSimParams([o], num_traj=n, sample_layers=flag, num_mid_measurements=mid, show_progress=False), 0
+        o.initialize(p)
+        impl.append((int(o.trajectories.shape[0]), int(o.trajectories.shape[1]), int(np.shape(o.results)[0])))
+        exprs.append(f"init_shape_src {cls} {g_bool(flag)} {g_nat(n)} {g_nat(ntimes)} {g_nat(shots)} {g_nat(mid)}")
+        cases.append({"class": cls, "flag": flag, "num_traj": n, "times": ntimes, "shots": shots, "mid": mid, "used_before": bool(k % 2)})
+    vals = common.coq_eval_sharded("From Coq Require Import List. Import ListNotations.\nFrom Yaqs Require Import Model.InitRule Gen.InitGen.", exprs, tag="c20i")
+    for c, got, v in zip(cases, impl, vals):
+        want = tuple(int(x) for x in v[1]) if isinstance(v, common.App) and v[0] == "Some" else None
+        ctx.case(nontrivial_key=("init", str(c)) if c["used_before"] else None, validated=True)
+        ctx.count("init_rule_cases")
+        if got != want:
+            ctx.mismatch("Observable.initialize (rows, columns of trajectories; length of results) vs Gen/InitGen.init_shape_src", c, list(got), list(want) if want else None, key="init-rule")
+
+
 def shares(nm, other):
     """where two noise-model objects alias each other (None if nowhere)"""
     if other is nm:
@@ -266,6 +308,7 @@ def alias_correspondence(ctx):
 def correspond(ctx):
     ctx.rules.append(RULE)
     alias_correspondence(ctx)
+    init_rule_correspondence(ctx)
     # layer sampling: the number of result columns of a run depends on the circuit of that run only (Params.run_layers)
     from drivers import C16
 
